@@ -12,6 +12,8 @@ ASSUME = [
     "through TorConfig.create_socks_endpoint the requested value is also a configured line in full, a loopback host:port listener's bare "
     "port, an absent port with option words, and every such request is also made twice in a row; the internal helper "
     "_create_socks_endpoint (which the library itself only calls without a requested value) is driven with first-word requests only",
+    "chain vectors: on one TorConfig a port is requested and added, back to back with one that Tor refuses, Tor announcing what it "
+    "accepted before its 250 OK; the request under test is a third, new port",
     "the well-known-port fallback is also exercised on an endpoint object that has connected before under other conditions (prior)",
     "existing configurations: unset with the built-in default in force, 1-3 explicit lines in TCP / host:port / unix forms with and "
     "without option words, 'SOCKSPort 0'; requested: none, a configured value, an unconfigured value; through "
@@ -77,6 +79,10 @@ def run(pid, tier, seed):
                 recs.append(sp.choose(ex, rq, "config", twice=True))
     for rq in (None, "9999", "9050"):
         recs.append(sp.choose(dict(lines=[], default="9050", lookupfails=True), rq, "tor"))
+    # a request after a history on the same TorConfig (a port added, another refused, Tor's announcement in between)
+    for ex in configurations(tier):
+        if ex["lines"] and all(l.split()[0] not in ("9061", "9062", "0", "auto") and "[" not in l for l in ex["lines"]):
+            recs.append(sp.chain(ex))
     kinds = ["ok", "connerr", "other", "socksfail", "hangup"]
     for outs in itertools.product(kinds, repeat=2):
         recs.append(sp.fallback(outs))
@@ -118,7 +124,10 @@ def replay(pid, path):
     v = p["vector"]
     if v["part"] == "a":
         lines = [e["line"] for e in v["existing"]] if not v.get("implicit_default") else []
-        rec = sp.choose(dict(lines=lines, default="9050"), v["requested"] or None, v["path"])
+        if v.get("chain"):
+            rec = sp.chain(dict(lines=v["base"]))
+        else:
+            rec = sp.choose(dict(lines=lines, default="9050"), v["requested"] or None, v["path"], twice=v.get("twice", False))
     else:
         rec = sp.fallback(v["outcomes"], v.get("prior") or None)
     res, r = tlc.validate_traces("SocksPortTrace", "SocksPortTrace.cfg", [dict(rec, steps=[1])])
